@@ -222,22 +222,24 @@ func verifH_C18_complete() {
 	verifAssert(out.NameOfHolder != nil && out.NameOfHolder.Primary == "DOE" && out.NameOfHolder.Secondary == "JOHN PAUL", "name of holder")
 }
 
+// verifTrimmedLen forks on the length of f without trailing fillers.
+func verifTrimmedLen(f []byte) int {
+	n := len(f)
+	for n > 0 && f[n-1] == '<' {
+		n--
+	}
+	return n
+}
+
 // verifH_C18_routes: the key seed from the full MRZ, from the decoded fields re-encoded, and from
 // the three key fields is the same string (key fields over the ICAO alphabet, check digits digits).
 func verifH_C18_routes() {
 	L := verifLayoutOf(verifParam("layout"))
 	m := verifBytes(L.n)
 	s := string(m)
-	// scope of the claim: key fields over the ICAO alphabet and their check digits are digits
-	for _, r := range [][2]int{{L.numLo, L.numHi}, {L.dobLo, L.dobHi}, {L.expLo, L.expHi}} {
-		for i := r[0]; i < r[1]; i++ {
-			verifAssume(verifIsMrzChar(m[i]))
-		}
-	}
-	if L.optLo >= 0 {
-		for i := L.optLo; i < L.optHi; i++ {
-			verifAssume(verifIsMrzChar(m[i]))
-		}
+	// scope of the claim: a zone over the ICAO alphabet whose key-field check digits are digits
+	for i := 0; i < L.n; i++ {
+		verifAssume(verifIsMrzChar(m[i]))
 	}
 	isDigit := func(c byte) bool { return c >= '0' && c <= '9' }
 	verifAssume(isDigit(m[L.dobCD]) && isDigit(m[L.expCD]))
@@ -246,6 +248,18 @@ func verifH_C18_routes() {
 		verifAssume(!ok || isDigit(cd))
 	} else {
 		verifAssume(isDigit(m[L.numCD]))
+	}
+	if verifParam("dates_digits") == 1 {
+		// quick tier: birth and expiry dates are digits (no fillers); thorough tier lifts this
+		for _, r := range [][2]int{{L.dobLo, L.dobHi}, {L.expLo, L.expHi}} {
+			for i := r[0]; i < r[1]; i++ {
+				verifAssume(m[i] >= '0' && m[i] <= '9')
+			}
+		}
+	}
+	// case split on the number of trailing fillers of each key field (makes lengths concrete)
+	for _, r := range [][2]int{{L.numLo, L.numHi}, {L.dobLo, L.dobHi}, {L.expLo, L.expHi}} {
+		verifTrimmedLen(m[r[0]:r[1]])
 	}
 	k1, err1 := ConvertMrzToMrzi(s)
 	dec, err2 := MrzDecode(s)
